@@ -49,5 +49,7 @@ MCObj4 == [ a    |-> V("A", <<"A">>, {"x", "y"}, "variant"),
             ab   |-> V("B", <<"A", "B">>, {"x"}, "addon"),
             at   |-> V("AT", <<"A", "T">>, {"x"}, "variant"),         \* dashed top-level UID, childless
             b    |-> V("B", <<"B">>, {"x"}, "variant"),
-            pab  |-> V("AB", <<"AB">>, {"x"}, "variant") ]
+            pab  |-> V("AB", <<"AB">>, {"x"}, "variant"),
+            abc  |-> V("C", <<"A", "B", "C">>, {"x"}, "optional"),    \* two children of a variant that is itself a child:
+            aba  |-> V("A", <<"A", "B", "A">>, {"x"}, "addon") ]      \*   added in either order, listed by UID
 =============================================================================
